@@ -191,7 +191,7 @@ def _ambient(kind):
 
 def c07_case(opt, proto, tseed, ambient):
     scn = {'opt': opt, 'over': {'max_cycles': 3, 'fitness_error': None, 'early_stopping': None}, 'proto': proto,
-           'task_seed': tseed, 'seed': 31337 + len(ambient)}
+           'task_seed': tseed, 'seed': 31337 + len(ambient), 'keep_ambient': True}
     if proto == 'perm4s':
         scn['obj'] = 'decoded'
     _ambient(ambient)
